@@ -132,4 +132,261 @@ def explore(ctx: Ctx):
     ctx.notes["stacks"] = nstacks
     ctx.run_parallel("stack", cases, workers=10, group_key=lambda c: (json.dumps(c["spec"]), c["table"]["act_kind"], c["table"]["obs_kind"], c["table"]["S"]))
     ctx.traces = ctx.transitions
+    g2l, gx, gc = adapter_cases(ctx, thorough, keys)
+    ctx.run("gym2lerax", g2l)
+    ctx.run("gymnax", gx)
+    ctx.run("gymcollect", gc)
+    ctx.require("gym2lerax-done", "gymnax-done", "gymcollect-episode-ends")
     ctx.require("done", "trunc", "term", "reset-multi-init-varied")
+
+
+# ---------------------------------------------------------------------------------------
+# (iv) adapters
+# ---------------------------------------------------------------------------------------
+def _expected_log(seq_events):
+    return seq_events
+
+
+_G2L: dict = {}
+
+
+def clause_gym2lerax(cases, ctx: Ctx):
+    """case: {table, key, actions}.  GymToLeraxEnv over the logging gymnasium twin, driven through lerax's own
+    reset/step; a second twin instance replays the seeds the first one received."""
+    import jax
+    from jax import numpy as jnp
+    from jax import random as jr
+
+    from lerax.compatibility.gym import GymToLeraxEnv
+    from mc.twins import TabGymEnv
+
+    out = []
+    for ci, c in enumerate(cases):
+        t = c["table"]
+        tk = json.dumps(t, sort_keys=True)
+        if tk not in _G2L:  # one adapter (one compilation of reset/step) per table; the twin's log is cleared per case
+            tw = TabGymEnv(t)
+            _G2L[tk] = (tw, GymToLeraxEnv(tw))
+        twin, env = _G2L[tk]
+        jax.effects_barrier()
+        twin.log.clear()
+        desc = f"GymToLeraxEnv T={t['T']} term={t['term']} init={t['init']} limit={t.get('limit', 0)} actions={c['actions']}"
+        st, obs, info = env.reset(key=jr.key(c["key"]))
+        jax.effects_barrier()
+        ref = TabGymEnv(t)
+        if len(twin.log) != 1 or twin.log[0][0] != "reset":
+            out.append((ci, "C13/adapter/gym2lerax/reset-calls", f"{desc}: reset() produced gym calls {twin.log}"))
+            continue
+        r_obs, _ = ref.reset(seed=twin.log[0][1])
+        if not np.array_equal(np.asarray(obs), r_obs):
+            out.append((ci, "C13/adapter/gym2lerax/reset-observation", f"{desc}: reset observation {np.asarray(obs).tolist()}, gym env returned {np.asarray(r_obs).tolist()}"))
+        expected_log = [twin.log[0]]
+        for j, a in enumerate(c["actions"]):
+            n0 = len(twin.log)
+            st, obs, rew, term, trunc, info = env.step(st, jnp.asarray(a), key=jr.fold_in(jr.key(c["key"]), j))
+            jax.effects_barrier()
+            new_calls = twin.log[n0:]
+            g_obs, g_r, g_term, g_trunc, _ = ref.step(a)
+            done = g_term or g_trunc
+            want_calls = [("step", a)] + ([("reset",)] if done else [])
+            if [x[0] for x in new_calls] != [x[0] for x in want_calls] or new_calls[0] != ("step", a):
+                out.append((ci, "C13/adapter/gym2lerax/call-sequence", f"{desc}: step {j} (action {a}, episode {'ends' if done else 'continues'}) made the gym calls {new_calls}; expected {want_calls}"))
+                break
+            if done:
+                ctx.guard("gym2lerax-done")
+                g_obs, _ = ref.reset(seed=new_calls[1][1])
+            if float(rew) != g_r or bool(term) != g_term or bool(trunc) != g_trunc:
+                out.append((ci, "C13/adapter/gym2lerax/signals", f"{desc}: step {j}: (reward, terminal, truncated)=({float(rew)}, {bool(term)}, {bool(trunc)}), gym env gave ({g_r}, {g_term}, {g_trunc})"))
+            if not np.array_equal(np.asarray(obs), g_obs):
+                out.append((ci, "C13/adapter/gym2lerax/observation", f"{desc}: step {j}: observation {np.asarray(obs).tolist()}, gym env {'after its reset ' if done else ''}gave {np.asarray(g_obs).tolist()}"))
+            ctx.transitions += 1
+        ctx.traces += 1
+    return out
+
+
+def clause_gymnax(cases, ctx: Ctx):
+    """case: {table, key, actions, direction: 'gymnax2lerax'|'lerax2gymnax'}"""
+    import jax
+    from jax import numpy as jnp
+    from jax import random as jr
+
+    from lerax.compatibility.gymnax import GymnaxToLeraxEnv, LeraxToGymnaxEnv
+    from mc.mdp import reward_table
+    from mc.twins import make_gymnax_twin
+
+    out = []
+    for ci, c in enumerate(cases):
+        t = c["table"]
+        T = np.asarray(t["T"])
+        R = reward_table(t["S"], t["A"])
+        lim = t.get("limit", 0)
+        desc = f"{c['direction']} T={t['T']} term={t['term']} init={t['init']} limit={lim} actions={c['actions']}"
+        tk = (c["direction"], json.dumps(t, sort_keys=True))
+        if c["direction"] == "gymnax2lerax":
+            if tk not in _G2L:
+                genv, params = make_gymnax_twin(t)
+                _G2L[tk] = GymnaxToLeraxEnv(genv, params)
+            env = _G2L[tk]
+            st, obs, info = env.reset(key=jr.key(c["key"]))
+            get = lambda st: (int(st.env_state.s), int(st.env_state.time))
+            s, clock = get(st)
+            if not t["init"][s] or clock != 0 or int(obs) != s:
+                out.append((ci, "C13/adapter/gymnax2lerax/reset", f"{desc}: reset state {s} time {clock} obs {int(obs)}"))
+            for j, a in enumerate(c["actions"]):
+                st, obs, rew, term, trunc, info = env.step(st, jnp.asarray(a), key=jr.fold_in(jr.key(c["key"]), j))
+                s2 = int(T[s, a])
+                done = bool(t["term"][s2]) or bool(lim and clock + 1 >= lim)
+                ns, nclock = get(st)
+                if float(rew) != float(R[s, a, s2]) or (bool(term) or bool(trunc)) != done:
+                    out.append((ci, "C13/adapter/gymnax2lerax/signals", f"{desc}: step {j}: reward {float(rew)} terminal {bool(term)} truncated {bool(trunc)}; gymnax env gives reward {float(R[s, a, s2])} done {done}"))
+                if done:
+                    ctx.guard("gymnax-done")
+                    if not t["init"][ns] or nclock != 0:
+                        out.append((ci, "C13/adapter/gymnax2lerax/no-restart", f"{desc}: step {j} ended the episode; adapter state {ns} time {nclock}"))
+                elif (ns, nclock) != (s2, clock + 1):
+                    out.append((ci, "C13/adapter/gymnax2lerax/successor", f"{desc}: step {j}: adapter state {(ns, nclock)}, gymnax env {(s2, clock + 1)}"))
+                if int(obs) != ns:
+                    out.append((ci, "C13/adapter/gymnax2lerax/observation", f"{desc}: step {j}: observation {int(obs)} is not that of the adapter state {ns}"))
+                s, clock = ns, nclock
+                ctx.transitions += 1
+        else:
+            if tk not in _G2L:
+                _G2L[tk] = LeraxToGymnaxEnv(wrapx.base_env(dict(t, act_kind="discrete", obs_kind="discrete")))
+            g = _G2L[tk]
+            params = g.default_params
+            obs, gst = g.reset(jr.key(c["key"]), params)
+            s, clock = int(gst.env_state.s), int(gst.env_state.t)
+            if not t["init"][s] or clock != 0 or int(obs) != s or int(gst.time) != 0:
+                out.append((ci, "C13/adapter/lerax2gymnax/reset", f"{desc}: reset state {s} clock {clock} obs {int(obs)} time {int(gst.time)}"))
+            for j, a in enumerate(c["actions"]):
+                obs, gst, rew, done_f, info = g.step_env(jr.fold_in(jr.key(c["key"]), j), gst, jnp.asarray(a), params)
+                s2 = int(T[s, a])
+                done = bool(t["term"][s2]) or bool(lim and clock + 1 >= lim)
+                ns, nclock = int(gst.env_state.s), int(gst.env_state.t)
+                if float(rew) != float(R[s, a, s2]) or bool(done_f) != done:
+                    out.append((ci, "C13/adapter/lerax2gymnax/signals", f"{desc}: step {j}: reward {float(rew)} done {bool(done_f)}; lerax env gives reward {float(R[s, a, s2])}, terminal-or-truncated {done}"))
+                if done:
+                    ctx.guard("gymnax-done")
+                    if not t["init"][ns] or nclock != 0:
+                        out.append((ci, "C13/adapter/lerax2gymnax/no-restart", f"{desc}: step {j} ended the episode; state {ns} clock {nclock}"))
+                elif (ns, nclock) != (s2, clock + 1):
+                    out.append((ci, "C13/adapter/lerax2gymnax/successor", f"{desc}: step {j}: state {(ns, nclock)}, lerax env {(s2, clock + 1)}"))
+                if int(obs) != ns:
+                    out.append((ci, "C13/adapter/lerax2gymnax/observation", f"{desc}: step {j}: observation {int(obs)} is not that of the state {ns}"))
+                s, clock = ns, nclock
+                ctx.transitions += 1
+        ctx.traces += 1
+    return out
+
+
+class _Shim:
+    """what ScriptedAC/ScriptedQ read from an environment"""
+
+    def __init__(self, env, S, A):
+        self.action_space, self.observation_space = env.action_space, env.observation_space
+        self.act_kind, self.obs_kind, self.S, self.A = "discrete", "discrete", S, A
+
+    @property
+    def unwrapped(self):
+        return self
+
+
+def gymcollect_failures(c, pid: str, ctx: Ctx):
+    """on-/off-policy collection over GymToLeraxEnv(logging twin): exactly one gym reset per episode start"""
+    import equinox as eqx
+    import jax
+    from jax import random as jr
+
+    from lerax.callback import CallbackList
+    from lerax.compatibility.gym import GymToLeraxEnv
+    from mc import collect, learnx
+    from mc.policies import ScriptedAC, ScriptedQ
+    from mc.twins import TabGymEnv
+
+    t = c["table"]
+    twin = TabGymEnv(t)
+    env = GymToLeraxEnv(twin)
+    shim = _Shim(env, t["S"], t["A"])
+    cb = CallbackList(callbacks=[])
+    n = c["num_steps"]
+    if c["algo"] == "DQN":
+        algo = learnx.make_algo("DQN", 1, n, learning_starts=c["learning_starts"], buffer_size=32, batch_size=1, learning_rate=0.0)
+        pol = ScriptedQ(shim, np.asarray(c["script"]))
+        total = c["learning_starts"] + n
+    else:
+        algo = collect.PROBES[c["algo"]](num_envs=1, num_steps=n) if c["algo"] != "PPO" else collect.PROBES["PPO"](num_envs=1, num_steps=n, num_batches=1, num_epochs=1)
+        pol = ScriptedAC(shim, np.asarray(c["script"]))
+        total = n
+    st = eqx.filter_jit(lambda k: algo.reset(env, pol, key=k, callback=cb))(jr.key(c["key"]))
+    st = eqx.filter_jit(lambda s, k: algo.iteration(s, key=k, callback=cb))(st, jr.key(c["key"] + 1))
+    jax.block_until_ready(jax.tree.leaves(eqx.filter(st.step_state, eqx.is_array)))
+    jax.effects_barrier()
+    # reference call log: the scripted policy restarts its script at every episode start
+    ref = TabGymEnv(t)
+    log = list(twin.log)
+    desc = f"{c['algo']} collection over GymToLeraxEnv, T={t['T']} term={t['term']} init={t['init']} limit={t.get('limit', 0)} script={c['script']} steps={total}"
+    fails = []
+    if not log or log[0][0] != "reset":
+        return [(f"{pid}/gym/call-sequence", f"{desc}: first gym call is {log[:1]}")]
+    ref.reset(seed=log[0][1])
+    want = ["R"]
+    cnt = 0
+    i = 1
+    for step in range(total):
+        a = c["script"][cnt % len(c["script"])]
+        _, _, term, trunc, _ = ref.step(a)
+        want.append(f"S{a}")
+        if term or trunc:
+            ctx.guard("gymcollect-episode-ends")
+            want.append("R")
+            cnt = 0
+            # follow the implementation's own seed for the new episode, if it did reset here
+            k = len(want) - 1
+            seed = log[k][1] if k < len(log) and log[k][0] == "reset" else 0
+            ref.reset(seed=seed)
+        else:
+            cnt += 1
+    got = ["R" if x[0] == "reset" else f"S{x[1]}" for x in log]
+    if got != want:
+        extra_resets = got.count("R") - want.count("R")
+        sig = f"{pid}/gym/environment-reset-when-episode-did-not-end" if extra_resets > 0 else f"{pid}/gym/call-sequence"
+        fails.append((sig, f"{desc}: gym call log {' '.join(got)}; one reset per episode start would be {' '.join(want)}"))
+    return fails
+
+
+def clause_gymcollect(cases, ctx: Ctx, pid="C13"):
+    out = []
+    for ci, c in enumerate(cases):
+        for sig, msg in gymcollect_failures(c, pid, ctx):
+            out.append((ci, sig, msg))
+        ctx.traces += 1
+    return out
+
+
+CLAUSES.update({"gym2lerax": clause_gym2lerax, "gymnax": clause_gymnax, "gymcollect": clause_gymcollect})
+
+
+def adapter_cases(ctx: Ctx, thorough: bool, keys):
+    import itertools
+
+    tabs = [t for t in tables(2, 2, "discrete", "discrete", [0, 2], False)]
+    tabs = tabs[:: (2 if thorough else 9)]
+    L = 5 if thorough else 4
+    g2l, gx, gc = [], [], []
+    for t in tabs:
+        for seq in itertools.product([0, 1], repeat=L):
+            g2l.append(dict(table=t, key=keys[0], actions=list(seq)))
+            if any(t["term"]) or t["limit"]:
+                ctx.nontriv(("g2l", json.dumps(t), seq))
+    for t in tabs:
+        for seq in itertools.product([0, 1], repeat=4):
+            for d in ("gymnax2lerax", "lerax2gymnax"):
+                gx.append(dict(table=t, key=keys[1 % len(keys)], actions=list(seq), direction=d))
+    ending = [t for t in tables(2, 2, "discrete", "discrete", [0, 2], False) if any(t["term"]) or t["limit"]]
+    for t in ending[:: (8 if thorough else 30)]:
+        for sc in ([0, 1, 1], [1, 0]):
+            gc.append(dict(table=t, algo="PPO", script=sc, num_steps=6, key=keys[0]))
+            gc.append(dict(table=t, algo="DQN", script=sc, num_steps=3, learning_starts=3, key=keys[0]))
+            if thorough:
+                gc.append(dict(table=t, algo="A2C", script=sc, num_steps=5, key=keys[0]))
+    return g2l, gx, gc
